@@ -164,12 +164,14 @@ def count_zero_rule(ctx, R, L, sem):
         for width, dst in ((32, ebx), (16, TSlice(ebx, 0, 16)), (8, TSlice(ebx, 0, 8))):
             if name in ('shld', 'shrd') and width == 8:
                 continue
-            for cnt in (0, 32, 0x40, 0xE0):
+            for cnt, as_imm in ((0, False), (32, False), (0x40, False), (0xE0, False), (0, True), (0x20, True), (0x40, True), (0xE0, True)):
                 for flags in ((0, 0, 0, 0, 0, 0), (1, 1, 1, 1, 1, 1), (1, 0, 1, 0, 1, 0)):
                     val = dict(zip(('cf', 'pf', 'af', 'zf', 'nf', 'of'), flags))
-                    val.update({'ebx': 0x80000181, 'ecx': cnt, 'edx': 0x7fff0001})
-                    args = [dst, cl] if name not in ('shld', 'shrd') else [dst, (TId('edx', 32, is_reg=True) if width == 32 else TSlice(TId('edx', 32, is_reg=True), 0, 16)), cl]
-                    inst = 'count0:%s:%d:cl=%#x:%s' % (name, width, cnt, ''.join(str(x) for x in flags))
+                    val.update({'ebx': 0x80000181, 'ecx': 5 if as_imm else cnt, 'edx': 0x7fff0001})
+                    # the count: the register cl, or the immediate byte of C0 / C1 /digit ib and 0F A4 / 0F AC (an imm8 whose low five bits are 0 is a count of 0)
+                    count_op = TInt(ModVal(8, cnt), leaf='imm') if as_imm else cl
+                    args = [dst, count_op] if name not in ('shld', 'shrd') else [dst, (TId('edx', 32, is_reg=True) if width == 32 else TSlice(TId('edx', 32, is_reg=True), 0, 16)), count_op]
+                    inst = 'count0:%s:%d:%s=%#x:%s' % (name, width, 'imm8' if as_imm else 'cl', cnt, ''.join(str(x) for x in flags))
                     try:
                         outs = lifted_effect(I, f, args, val)
                     except LiftUnknown as e:
@@ -178,10 +180,10 @@ def count_zero_rule(ctx, R, L, sem):
                         raise AnalysisError('%s: lifted assignments outside the evaluable subset: %s' % (name, e))
                     changed = sorted(k for got in outs for k in got if got[k] != val[k])
                     if changed:
-                        R.violation(inst, 'count0:%s:%s' % (name, ','.join(changed)), '%s of a %d-bit operand by cl = %#x (masked count 0) changes %s; IA-32 leaves the operand and every flag unchanged'
-                                    % (name, width, cnt, ', '.join(changed)), where(sem, f.node), count=False, witness='c1 e0 00 (shl eax, 0) with zf = 1')
+                        R.violation(inst, 'count0:%s:%s%s' % (name, 'imm8:' if as_imm else '', ','.join(changed)), '%s of a %d-bit operand by %s = %#x (masked count 0) changes %s; IA-32 leaves the operand and every flag unchanged'
+                                    % (name, width, 'imm8' if as_imm else 'cl', cnt, ', '.join(changed)), where(sem, f.node), count=False, witness='c1 e0 00 (shl eax, 0) with zf = 1')
                     else:
-                        R.ok(inst, nontrivial=(len(R.nontrivial) < 200), sample='%s %d-bit by cl = %#x: nothing changes' % (name, width, cnt))
+                        R.ok(inst, nontrivial=(len(R.nontrivial) < 200), sample='%s %d-bit by %s = %#x: nothing changes' % (name, width, 'imm8' if as_imm else 'cl', cnt))
 
 
 def same_register_parts_rule(ctx, R, L, sem):
